@@ -84,6 +84,9 @@ type CScenario struct {
 	// WarmKeys: before the requests arrive the instance has served requests for this many other keys (its locker has
 	// taken and released a lock for each of them).
 	WarmKeys int `json:"warm_keys,omitempty"`
+	// Garbage lists keys whose stored attestation record cannot be decoded when the requests arrive (a damaged record):
+	// requests naming such a key fail, and must still come back.
+	Garbage []int `json:"garbage,omitempty"`
 }
 
 // keyRange returns the key indices lo..hi-1.
@@ -409,6 +412,11 @@ func (e *concEnv) mkScenario(cs CScenario, lockOnly bool, wantLinearizable bool)
 		}
 		keys := e.freshKeys(nkeys, cs.DescKeys)
 		warmLocker(lk, cs.WarmKeys)
+		for _, g := range cs.Garbage {
+			if err := e.rules.VerifRawPut(ctx, append(append([]byte{}, keys[g]...), 0x02), []byte{0x7f, 0x03, 0xff, 0x00, 0x12}); err != nil {
+				panic(err)
+			}
+		}
 		var calls []*callRec
 		var bodies []func(s *sched.Sched)
 		type reqCtx struct {
